@@ -109,7 +109,7 @@ class _World:
 
         def unreg(a=0, b=0):
             log.append(['unreg', a, b])
-            raise pjrpc.exc.JsonRpcError(code=world.code(), message='unregistered', data=[a])
+            raise pjrpc.exc.JsonRpcError(code=world.code(), message='unregistered', data=a)      # data may be falsy (0)
 
         def boom(a=0, b=0):
             log.append(['boom', a, b])
